@@ -1,7 +1,9 @@
 """C14 — a message is held by at most one consumer at a time (in-memory broker)."""
 from ..common import Ctx, Result
 from .. import memrun
-from . import _mem
+from . import _mem, _redis
+from ..common import Failure
+from ..vloop import run_virtual
 
 S = memrun.S
 RULE = ("histories with 2-5 consumers of the same queue (same and different topic filters and categories) polling concurrently "
@@ -46,8 +48,13 @@ def gen(rng, n_ops: int) -> dict:
             ops.append({"op": "consume", "c": rng.choice(list(consumers)), "timeout": rng.choice([0.0005, 0.0035])})
         elif r < 0.80:
             ops.append({"op": "terminal"})
-        elif r < 0.87:
+        elif r < 0.85:
             ops.append({"op": "finish", "c": rng.choice(list(consumers))})
+        elif r < 0.89:
+            # another consumer of the queue is finished while this one is inside consume() (every iteration of the take)
+            c_ = rng.choice(list(consumers))
+            ops.append({"op": "consume_with_finish", "c": c_, "f": rng.choice([x for x in consumers if x != c_]),
+                        "k": rng.choice([0, 1, 1, 2, 2, 3]), "timeout": rng.choice([0.0035, 0.0105])})
         elif r < 0.94:
             ops.append({"op": "together_gen"})      # finish() of a holder concurrently with terminal calls on held messages
         else:
@@ -64,7 +71,7 @@ def nontrivial(h: dict, r: dict) -> bool:
         for c, i, t, cat in _mem.deliveries(dict(e, cspec=h["consumers"])):
             receivers.add(c)
             count[i] = count.get(i, 0) + 1
-        if e["op"] == "finish" and any(pl and pl[0][0] == "held" and pl[0][2] != e["c"] for pl in prev.values()):
+        if e["op"] in ("finish", "finish_concurrent") and any(pl and pl[0][0] == "held" and pl[0][2] != e["c"] for pl in prev.values()):
             fin_with_foreign = True
         prev = e["after"]["places"]
     return len(receivers) >= 2 and (fin_with_foreign or any(v >= 2 for v in count.values()))
@@ -76,6 +83,28 @@ def run(ctx: Ctx) -> Result:
     res.relations = ["mem_obs: delivered id per poll, holder of every held message after every call"]
     hists = [gen(rng, rng.randint(6, 45)) for _ in range(ctx.scale(600, 10000))]
     _mem.run_histories(ctx, res, "c14", hists, WHICH, rng, nontrivial=nontrivial)
+    # Redis client: sequential histories (one consumer at a time: takes are exclusive) ...
+    _redis.run_seq(ctx, res, "c14r", {"C14", "C01"}, "any", 100, 2000, rng)
+    # ... and consumers with running background tasks on one queue
+    outs = []
+
+    async def main(loop):
+        loop.set_exception_handler(lambda l, c: None)
+        for _ in range(ctx.scale(12, 200)):
+            n_cons = rng.choice([1, 2, 2, 3])
+            outs.append(await _redis.concurrent_takes(rng, rng.randint(1, 10), n_cons, rng.choice([1, 2, None])))
+
+    run_virtual(main)
+    for o in outs:
+        res.add_case("redis_concurrent:" + repr(sorted(o["handed"].items())), o["consumers"] >= 2)
+        res.count("redis_concurrent_runs")
+        dup = {i: cs for i, cs in o["handed"].items() if len(cs) > 1}
+        missing = [i for i in range(1, o["n"] + 1) if i not in o["handed"]]
+        if dup:
+            kind = "redis_double_delivery_two_consumers" if o["consumers"] >= 2 else "redis_double_delivery_single_consumer"
+            res.failures.append(Failure(kind, f"messages handed to several consumers without having been returned: {dup}", {"redis_concurrent": o}, None))
+        if missing:
+            res.failures.append(Failure("redis_message_never_delivered", f"messages {missing} were never handed to any listening consumer", {"redis_concurrent": o}, None))
     return res
 
 
